@@ -456,6 +456,23 @@ func genAln(r *gen.Rand, n, L int) (a alnT, flags []string) {
 			cells[i][j] = b
 		}
 	}
+	if mixedCase && r.Chance(0.5) {
+		// soft-masked region: every row in lower case over a range of columns (sometimes the whole alignment),
+		// so that the most frequent character of a column is a lower case letter
+		from, to := 0, L
+		if r.Bool() {
+			from = r.Intn(L)
+			to = from + r.Range(1, L-from)
+		}
+		for i := range cells {
+			for j := from; j < to; j++ {
+				if r.Chance(0.9) {
+					cells[i][j] = lower(cells[i][j])
+				}
+			}
+		}
+		flags = append(flags, "aln:soft-masked-region")
+	}
 	if r.Chance(0.15) && n >= 2 { // a duplicated row (reference equal to another row everywhere)
 		copy(cells[n-1], cells[0])
 	}
@@ -938,7 +955,7 @@ func main() {
 		"k:negative", "k:0", "k:1", "k:2..n-1", "k:>=n", "outcome:error", "outcome:changed", "outcome:unchanged", "selection:partial"} {
 		mon.Floor(k, 1000)
 	}
-	for _, k := range []string{"aln:protein", "aln:nucleotide", "aln:unknown-alphabet", "aln:mixed-case", "aln:dots", "reading:maj-over-all-rows"} {
+	for _, k := range []string{"aln:protein", "aln:nucleotide", "aln:unknown-alphabet", "aln:mixed-case", "aln:soft-masked-region", "aln:dots", "reading:maj-over-all-rows"} {
 		mon.Floor(k, 100)
 	}
 	mon.Floor("cli:runs", 100)
